@@ -101,6 +101,7 @@ func (v *StructSchema) process(ctx *p.SchemaCtx) {
 	subCtx := ctx.NewSchemaCtx(ctx.Data, ctx.ValPtr, ctx.Path, v.getType())
 	defer subCtx.Free()
 	for key, processor := range v.schema {
+		p.VerifOnField(subCtx.Path, key)
 		originalKey := key
 		if key[0] >= 'a' && key[0] <= 'z' {
 			var b [32]byte // Use a size that fits your max key length
@@ -179,6 +180,7 @@ func (v *StructSchema) validate(ctx *p.SchemaCtx) {
 	subCtx := ctx.NewSchemaCtx(ctx.Data, ctx.ValPtr, ctx.Path, v.getType())
 	defer subCtx.Free()
 	for key, schema := range v.schema {
+		p.VerifOnField(subCtx.Path, key)
 		fieldKey := key
 		if key[0] >= 'a' && key[0] <= 'z' {
 			var b [32]byte // Use a size that fits your max key length
